@@ -2513,7 +2513,11 @@ int call_function_interactive (interactive_t * i, char *str) {
    */
   DEBUG_CHECK (!(sent->flags & V_FUNCTION), "input_to must be function pointer");
   funp = sent->function.f;
-  funp->hdr.ref++; /* by local variable funp */
+  /* The callback must survive free_sentence() below.  Hold the extra reference in a value stack slot, not in a C
+   * local: when the callback raises an error (e.g. its owner has been destructed), unwinding the stack releases
+   * it; a reference counted only by a local variable leaked the function pointer and, through its owner
+   * reference, the object. */
+  push_funp (funp);
 
   args = sent->args;
   if (args)
@@ -2564,7 +2568,7 @@ int call_function_interactive (interactive_t * i, char *str) {
    *     foo(arg1, arg2, str, arg3, arg4) where str is the user input.
    */
   call_function_pointer (funp, num_arg + 1);
-  free_funp (funp); /* by local variable funp */
+  pop_stack (); /* the reference pushed above */
   funp = 0;
   return 1;
 }				/* call_function_interactive() */
